@@ -115,6 +115,11 @@ func (k *RoutineContainer) SetContext(ctx context.Context, restart bool) bool {
 		if rr == nil || (sameCtx && rr.err == nil) {
 			return
 		}
+		if rr.err != nil && !restart && ctx != nil && rr.deferRetry != nil {
+			// the routine failed and is waiting for its backoff retry: keep the retry.
+			// the retry timer uses the current context of the container when it fires.
+			return
+		}
 
 		rr.stop()
 		if rr.err == nil || restart {
